@@ -580,3 +580,63 @@ theorem env_file_absolute (W : World) (wd f : String) (hf : isAbs f = true) :
   simp only [envFilesExplicit, hf, if_true, bind_ok]
 
 end CV.Include
+
+namespace CV.Include
+open CV CV.Val
+
+/-! ## nested includes: the result depends on the sub-load only through its answers -/
+
+/-- `W` with another sub-load -/
+def World.withLoad (W : World) (lm : String → String → List String → Env → List String → Out KVs) : World :=
+  { W with loadModel := lm }
+
+theorem envFilesExplicit_withLoad (W : World) (lm : String → String → List String → Env → List String → Out KVs)
+    (wd : String) : ∀ ef, envFilesExplicit (W.withLoad lm) wd ef = envFilesExplicit W wd ef
+  | [] => rfl
+  | f :: rest => by
+    have hd : ∀ p, statDir (W.withLoad lm) p = statDir W p := fun _ => rfl
+    have hf : ∀ p, statFile (W.withLoad lm) p = statFile W p := fun _ => rfl
+    simp only [envFilesExplicit, hd, hf, envFilesExplicit_withLoad W lm wd rest]
+
+theorem includeEnv_withLoad (W : World) (lm : String → String → List String → Env → List String → Out KVs)
+    (wd pd : String) (env : Env) (ef : List String) :
+    includeEnv (W.withLoad lm) wd pd env ef = includeEnv W wd pd env ef := by
+  have hf : ∀ p, statFile (W.withLoad lm) p = statFile W p := fun _ => rfl
+  have he : (W.withLoad lm).envFromFile = W.envFromFile := rfl
+  cases ef with
+  | nil => simp only [includeEnv, envFiles, hf, he]
+  | cons f rest => simp only [includeEnv, envFiles, envFilesExplicit_withLoad, he]
+
+theorem includeAll_mono (W : World) (lm : String → String → List String → Env → List String → Out KVs)
+    (hle : ∀ a b c d e r, W.loadModel a b c d e = .ok r → lm a b c d e = .ok r)
+    (wd L : String) (env : Env) (chain : List String) :
+    ∀ (cfgs : List IncCfg) (model r : KVs), includeAll W wd L env chain cfgs model = .ok r →
+      includeAll (W.withLoad lm) wd L env chain cfgs model = .ok r
+  | [], model, r, h => h
+  | c :: cs, model, r, h => by
+    simp only [includeAll, includeOne] at h ⊢
+    obtain ⟨m1, h0, h1⟩ := bind_eq_ok h
+    obtain ⟨pl, hp, h0⟩ := bind_eq_ok h0
+    obtain ⟨env', he, h0⟩ := bind_eq_ok h0
+    obtain ⟨im, hl, h0⟩ := bind_eq_ok h0
+    have hp' : plan (W.withLoad lm) wd L chain c = .ok pl := hp
+    have he' : includeEnv (W.withLoad lm) wd pl.projDir env c.envFile = .ok env' := by
+      rw [includeEnv_withLoad]; exact he
+    have hl' : (W.withLoad lm).loadModel pl.relwd pl.projDir pl.paths env' chain = .ok im := hle _ _ _ _ _ _ hl
+    simp only [hp', he', hl', h0, bind_ok]
+    exact includeAll_mono W lm hle wd L env chain cs m1 r h1
+
+/-- **include_nested_mono**: if `ApplyInclude` succeeds with some sub-load, it succeeds with the same result with any
+sub-load that answers at least as much (e.g. one that allows deeper nesting): nested includes compose level by level -/
+theorem include_nested_mono (W : World) (lm : String → String → List String → Env → List String → Out KVs)
+    (hle : ∀ a b c d e r, W.loadModel a b c d e = .ok r → lm a b c d e = .ok r)
+    (wd L : String) (env : Env) (chain : List String) (model r : KVs)
+    (h : applyInclude W wd L env chain model = .ok r) :
+    applyInclude (W.withLoad lm) wd L env chain model = .ok r := by
+  simp only [applyInclude] at h ⊢
+  obtain ⟨cfgs, hc, h⟩ := bind_eq_ok h
+  obtain ⟨m, hm, h⟩ := bind_eq_ok h
+  simp only [hc, bind_ok, includeAll_mono W lm hle wd L env chain cfgs model m hm]
+  exact h
+
+end CV.Include
